@@ -75,3 +75,12 @@ Lemma ex_run :
   filter (fun e => match e with ECb _ _ _ => true | _ => false end) (rev (out st)) =
     [ECb 1 9 50001017; ECb 0 1 50001017; ECb 0 3 50001020; ECb 0 4 55001035].
 Proof. vm_compute. split; reflexivity. Qed.
+
+
+(* non-vacuity of the all-histories theorems: the example run contains timer-callback events and timeout
+   decisions taken with a timer at the root of the heap (50 ms job throttle; 5 ms = 1 ms to go + 4 ms tick) *)
+Lemma ex_run_events :
+  let st := run fixed ex_beh (lp_init (hz_of_res 4000000) 1000 3) ex_ops in
+  In (EFire 1 1 1000 3000000 50001013 50001017) (out st) /\
+  In (EDecide 50 1012 3001000 4 1) (out st) /\ In (EDecide 5 50001023 52001017 4 0) (out st).
+Proof. vm_compute. tauto. Qed.
